@@ -15,7 +15,7 @@
    (Out_inv of C05 implies it): since R8a the Logout is then not even written (journal first), send_msg
    raises inside disconnect and the connection stays up - harness class D20-app-raw-seqnum. *)
 From Coq Require Import ZArith NArith List Bool.
-From AF Require Import Base.Sx Py.Str Fix.Session Lemmas.SessionL Lemmas.SessionC04L Lemmas.SessionC11L.
+From AF Require Import Base.Sx Py.Str Fix.Session Lemmas.SessionL Lemmas.SessionC04L Lemmas.SessionC11L Lemmas.SessionC05L.
 From Coq Require String.
 Import String.StringSyntax.
 Import ListNotations.
@@ -73,6 +73,27 @@ Theorem C11_send_gate : forall c m w,
   gate_refuses m w = true -> send_msg c m w = mkR (inr XConn) w [].
 Proof. exact send_gate_theorem. Qed.
 Print Assumptions C11_send_gate.
+
+(* R13c - the TestRequest gate (treq_refuses): a TestRequest is refused - FIXConnectionError, world and trace
+   unchanged - unless a probe is pending AND the message carries exactly that probe's id (str(_test_req_id)):
+   only send_test_req() can put a TestRequest on the wire, and only one at a time *)
+Theorem C11_testrequest_gate : forall c m w,
+  treq_refuses m w = true -> send_msg c m w = mkR (inr XConn) w [].
+Proof. exact testrequest_gate. Qed.
+Print Assumptions C11_testrequest_gate.
+
+Theorem C11_testrequest_needs_pending_id : forall c m w,
+  mkind m = KTestReq ->
+  (treq w = None \/ (exists t, treq w = Some t /\ get T112 (mtags m) <> Some (z_to_dec t))) ->
+  send_msg c m w = mkR (inr XConn) w [].
+Proof. exact testrequest_needs_pending_id. Qed.
+Print Assumptions C11_testrequest_needs_pending_id.
+
+(* the FIXConnectionError refusals of send_msg are EXACTLY the state / role gates and the TestRequest gate *)
+Theorem C11_refusals_exact : forall c m w,
+  rv (send_msg c m w) = inr XConn <-> gate_refuses m w = true \/ treq_refuses m w = true.
+Proof. exact send_msg_conn_iff. Qed.
+Print Assumptions C11_refusals_exact.
 
 (* and conversely every send refused with FIXConnectionError (incl. the TestRequest gate) is free *)
 Theorem C11_refused_send_is_free : forall c m w,
